@@ -52,6 +52,10 @@ pub fn syntactic_family(tier: Tier) -> Vec<Item> {
         Lit::Chr('a'),
         Lit::Chr('\n'),
         Lit::Chr(' '),
+        Lit::Chr('"'),
+        Lit::Chr('\\'),
+        Lit::Chr('\''),
+        Lit::Chr('\t'),
     ];
     pools.vars = vec!["i".into()];
     pools.arrays = vec![];
